@@ -118,6 +118,7 @@ int main_impl(int argc, char** argv) {
         fprintf(fs, "{\"id\":%ld,\"variant\":\"%s\",\"program\":\"%s\",\"strategy\":\"%s\",\"seed\":%llu,\"bound\":%d,\"prefix\":\"%s\",\"sched\":\"%s\"}\n", id, V->name.c_str(), P.text.c_str(), A.strategy.c_str(), (unsigned long long)g_sh->seed, A.bound, join_ints(pf).c_str(), A.replay.c_str()); fclose(fs); }
     }
     if (A.strategy == "dfs" || A.strategy == "replay" || A.strategy == "seq") break;   // cannot resume a DFS after losing the process
+    if (g_sh->crashes >= 3) break;                                                       // enough evidence
     start = k + 1;
   }
   double sec = std::chrono::duration<double>(std::chrono::steady_clock::now() - t0).count();
